@@ -6,6 +6,9 @@ import (
 	"fmt"
 	"os"
 	"path/filepath"
+	"regexp"
+	"sort"
+	"strings"
 	"testing"
 
 	"github.com/runreveal/pql/parser"
@@ -196,7 +199,7 @@ func TestC08Mutants(t *testing.T) {
 // fuzzSeeds returns the golden inputs and any saved corpus files.
 func fuzzSeeds(target string) []string {
 	var out []string
-	files, _ := filepath.Glob("/repo/testdata/Goldens/*/input.pql")
+	files, _ := filepath.Glob(filepath.Join(repoDir(), "testdata/Goldens/*/input.pql"))
 	for _, fn := range files {
 		if b, err := os.ReadFile(fn); err == nil {
 			out = append(out, string(b))
@@ -244,7 +247,7 @@ var soupContexts = []string{"T | where %s", "T | summarize %s", "T | extend %s",
 
 // soupOps / soupOpContexts: operator-level soups (keywords of every operator's
 // optional parts) spliced where an operator or its arguments are expected.
-var soupOps = []string{"a", "(", ")", ",", "=", "by", "kind", "inner", "on", "with", "nulls", "first", "asc", "|", "count", "1", "'s'", ";", "-"}
+var soupOps = []string{"a", "(", ")", ",", "=", "by", "kind", "inner", "on", "with", "nulls", "first", "asc", "|", "count", "1", "'s'", ";", "-", "`asc`", "'desc'"}
 var soupOpContexts = []string{"T | join %s", "T | join kind = %s", "T | join (U) %s", "T | render %s", "T | render x with (%s", "T | take %s", "T | as %s", "T | %s", "%s", "T | sort by a %s", "T | top %s", "T | summarize a %s", "let %s"}
 
 // soupBrackets: a small alphabet taken to greater length.
@@ -273,6 +276,90 @@ func enumSoups(alphabet []string, maxLen, shard, nshards int, f func(soup string
 		}
 	}
 	rec("", maxLen)
+}
+
+// repoDir is the checkout of pql the harness was built against.
+func repoDir() string {
+	if d := os.Getenv("VERIF_REPO"); d != "" {
+		return d
+	}
+	return "/repo"
+}
+
+var wordLiteral = regexp.MustCompile(`"([A-Za-z_$][A-Za-z0-9_$]{1,15})"`)
+
+// sourceWords is a dictionary taken from the code under test: every short
+// word that occurs as a string literal in the parser or the compiler (keywords,
+// option names, function names — and whatever a change adds to them).
+func sourceWords() []string {
+	files, _ := filepath.Glob(filepath.Join(repoDir(), "parser", "*.go"))
+	files = append(files, filepath.Join(repoDir(), "pql.go"))
+	seen := map[string]bool{}
+	var out []string
+	for _, fn := range files {
+		if strings.HasSuffix(fn, "_test.go") {
+			continue
+		}
+		b, err := os.ReadFile(fn)
+		if err != nil {
+			continue
+		}
+		for _, m := range wordLiteral.FindAllStringSubmatch(string(b), -1) {
+			if !seen[m[1]] {
+				seen[m[1]] = true
+				out = append(out, m[1])
+			}
+		}
+	}
+	sort.Strings(out)
+	return out
+}
+
+var dictTail = []string{".", "=", "a", "#", "(", ")"}
+var dictContexts = []string{"T | join %s (U) on k", "T | join kind=inner %s (U) on k", "T | join (U) on k %s", "T | %s", "T | where a %s", "T | sort by a %s", "T | take 1 %s", "T | summarize %s", "T | project %s", "T | render x %s", "T | as x %s", "%s", "let %s"}
+
+// TestC08Dictionary: every word of the source dictionary followed by every
+// short sequence of option-like tokens, in every operator context. A word the
+// parser gives a meaning to (today or after a change) is reached this way
+// without the generator knowing the grammar it belongs to.
+func TestC08Dictionary(t *testing.T) {
+	st := harn.NewStats(env, "dictionary")
+	defer st.Flush()
+	words := sourceWords()
+	maxTail := env.Pick(4, 5)
+	st.SetExhaustive(fmt.Sprintf("each of the %d words found as string literals in parser/*.go and pql.go, followed by every sequence of <= %d tokens over %q, spliced into %q", len(words), maxTail, dictTail, dictContexts))
+	if len(words) < 20 {
+		t.Fatalf("harness: only %d dictionary words found under %s", len(words), repoDir())
+	}
+	failed := false
+	for wi, w := range words {
+		if wi%env.NShards != env.Shard {
+			continue
+		}
+		enumSoups(dictTail, maxTail, 0, 1, func(tail string) {
+			soup := w
+			if tail != "" {
+				soup += " " + tail
+			}
+			for _, ctx := range dictContexts {
+				if failed {
+					return
+				}
+				src := fmt.Sprintf(ctx, soup)
+				st.Eval()
+				msg, accepted, _ := checkAccept(src)
+				if accepted {
+					st.Class("accepted")
+					st.NonTrivialExact(1)
+					st.SampleHashed("accepted", src, func() any { return src })
+				}
+				if msg != "" {
+					failed = true
+					st.Violation(t, "C08", "accept", mkStrCase(src), "%+q: %s", src, msg)
+				}
+			}
+		})
+	}
 }
 
 func TestC08Exhaustive(t *testing.T) {
